@@ -66,7 +66,7 @@ chk("C12", "exploration",
     "outcome model in TLA+; every observed run validated against it by TLC; fault enumeration + mutation", "DESIGN.md 3 C12")
 chk("C13", "model_checking",
     "GenDir.tla (directory state: source, class of each generated file; actions Gen/SetSource/Delete/Corrupt/Stale) is model-checked (after Gen on a valid source all files are Out(src) whatever preceded; Gen is a fixpoint); enumerated histories ([Gen,] op [, op], Gen from every initial source, varying working directory and --report) are replayed on the real binary and validated step by step by GenDirTrace (file classes against fresh-directory output, exit status, report bytes); repeated generations in separate processes re-sample map iteration order.",
-    BASE + "map iteration orders are re-sampled, not enumerated; three projects (two valid, one invalid)",
+    BASE + "map iteration orders are re-sampled, not enumerated; three projects (two valid, one invalid); plus one five-file project generated from four file-creation orders on two file systems (scratch and /dev/shm when present)",
     "TLA+ directory model + trace validation of replayed histories", "DESIGN.md 3 C13")
 chk("C14", "model_checking",
     "lox is built from a scratch copy of the working tree and run on internal/parser and the three examples; every generated file must be byte-identical to the checked-in one (12 file comparisons, exhaustive); the four one-step traces are validated against GenDir's Gen action with Out(src) := the checked-in bytes.",
@@ -82,7 +82,7 @@ chk("C18", "model_checking",
     "TLC-enumerated schedules replayed on goroutines; race detector; variable inventory", "DESIGN.md 3 C18")
 chk("C19", "translation_validation",
     "TLC enumerates declaration layouts (tokens, tokens with modes, @external lines, @emit fragments, a second file sorting before/after); for each the expected numbering (EOF=0, ERROR=1, then dense in declaration order, files in name order) is compared with the const block, with _TokenToString evaluated in the compiled package over -1..n+1, with the token type the real lexer returns for each rule's lexeme, and with the keys of the parser's start-state action row.",
-    BASE + "layouts up to 4 items; all of length <= 2, a seeded sample of longer ones",
+    BASE + "layouts up to 4 items; all of length <= 2, a seeded sample of longer ones; each also with some terminals the parser never mentions and / or generated with --report",
     "expected numbering in TLA+ compared with the three generated files and the running lexer", "DESIGN.md 3 C19")
 
 def main():
